@@ -165,7 +165,9 @@ def check_property(prop, tier, a):
         fut_fn = tp.submit(run_native, ['fn', prop, '--tier', tier, '--seed', str(seed)])
         fut_h = tp.submit(run_native, ['harness', prop, '--tier', tier, '--seed', str(seed)]) if cfg.get('harness') else None
         if mine:
-            with cf.ProcessPoolExecutor(max_workers=min(a.jobs, max(1, len(mine))), mp_context=ctx) as pool:
+            # one fresh process per contract: the behaviour of z3 depends on what the process did before
+            # (symbol numbering, global context), and a verdict must not depend on scheduling
+            with cf.ProcessPoolExecutor(max_workers=min(a.jobs, max(1, len(mine))), mp_context=ctx, max_tasks_per_child=1) as pool:
                 results = list(pool.map(_verify_worker, [(c.key, timeout_ms, feas_ms) for c in mine]))
         native_fn = fut_fn.result()
         native_h = fut_h.result() if fut_h else None
